@@ -26,6 +26,6 @@ ASSUME Crc64(<<49, 50, 51, 52, 53, 54, 55, 56, 57>>) = <<55754, 50360, 55572, 59
 \* checkVersion = payload check used by rump diagnostics
 Expected(verifier, class) ==
     CASE class = "none" -> "accept"
-      [] class \in {"data", "crc", "trunc", "version_above_valid"} -> "reject"
+      [] class \in {"data", "crc", "crc_zeroed", "trunc", "version_above_valid"} -> "reject"
       [] class = "version_byte" -> "reject"       \* the version is covered by the CRC
 =============================================================================
